@@ -11,6 +11,7 @@ def dispatch (mode : String) : Option (List String → Verdict) :=
   | "C10" => some SockModel.Drive.C10.runCase
   | "C06" => some SockModel.Drive.C06.runCase
   | "C06legacy" => some SockModel.Drive.C06.runCaseLegacy
+  | "C18" => some SockModel.Drive.C18.runCase
   | _ => none
 
 def main (args : List String) : IO UInt32 := do
